@@ -21,6 +21,7 @@ type AsmSpec struct {
 	CID         bool
 	Privates    []AsmPrivate // exactly 1 for a simple font, >=1 for CID
 	FDSelect    []int        // CID: per-glyph FD index (format 0 is emitted)
+	Predefined  int          // simple font: 1, 2, 3 = use the predefined charset ISOAdobe, Expert, ExpertSubset (charset operand 0, 1, 2; no charset data); GlyphNames is ignored
 	TopExtra    []byte       // raw operand/operator bytes put at the start of the Top DICT (e.g. a FontMatrix in a chosen operand encoding)
 	FDExtra     [][]byte     // CID: raw bytes put at the start of the i-th Font DICT
 }
@@ -208,7 +209,10 @@ func Assemble(spec *AsmSpec) []byte {
 		rosOrdering = sid("Identity")
 	}
 	charset := []byte{0} // format 0
-	for g := 1; g < n; g++ {
+	if spec.Predefined > 0 && !spec.CID {
+		charset = nil
+	}
+	for g := 1; g < n && charset != nil; g++ {
 		v := g // CID = glyph index
 		if !spec.CID {
 			name := fmt.Sprintf("glyph%d", g)
@@ -269,6 +273,9 @@ func Assemble(spec *AsmSpec) []byte {
 			d = append(d, encodeOp(opCIDCount)...)
 		}
 		d = append(d, spec.TopExtra...)
+		if charset == nil {
+			charsetOff = spec.Predefined - 1 // the ids of the predefined charsets take the place of the offset
+		}
 		d = append(d, encodeInt5(charsetOff)...)
 		d = append(d, encodeOp(opCharset)...)
 		if spec.CID {
@@ -343,3 +350,6 @@ func Assemble(spec *AsmSpec) []byte {
 	}
 	return out
 }
+
+// StdString returns the i-th standard string (SID i).
+func StdString(i int) string { return stdStrings[i] }
